@@ -34,3 +34,124 @@ package vector
 //@   ensures (result != nil) == (0 <= i && i <= j && j <= vec_len(self))
 //@   ensures result != nil ==> vec_len(result) == j - i
 //@   ensures result != nil ==> (forall k int :: 0 <= k && k < j - i ==> vec_at(result, k) === vec_at(self, i + k))
+
+// ---------------------------------------------------------------------------
+// C06: lists behave like arrays at every length.
+//
+// Abstract view of the tree-backed *vector: vlen(p), vat(p, i). Vectors are
+// never mutated after construction, so the view is a function of the pointer.
+// The tree-recursive operations of *vector are specified over this view by
+// ASSUMED clauses (`assumes`: used by callers, not checked against the bodies;
+// the bounded stand-in c06-vector compares them with a plain array at every
+// length up to the bound). What IS proved here, for all lengths:
+//   * treeSize arithmetic (tail length always in 1..32 for a non-empty vector),
+//   * Index/Assoc/SubVector/Pop of *vector reject exactly the out-of-range requests,
+//     and every tail/array index is in range,
+//   * every subVector operation is the corresponding operation of the parent at
+//     begin+i, checks bounds against its OWN length, and never overflows.
+
+//@ spec fn vlen(p *vector) int
+//@ spec fn vat(p *vector, i int) any
+//@ spec fn tsize(count int) int = count < 32 ? 0 : ((count - 1) / 32) * 32
+
+// the Vector view of a *vector is its own view
+//@ axiom view_of_vector(p *vector)
+//@   ensures vec_len(p) == vlen(p)
+//@   ensures forall k int :: vec_at(p, k) === vat(p, k)
+
+//@ func vector.Len
+//@   props C06
+//@   pure
+//@   assumes result == vlen(v)
+//@   ensures result == v.count
+
+//@ func vector.treeSize
+//@   props C06
+//@   pure
+//@   requires 0 <= v.count && v.count < 4611686018427387904
+//@   ensures result == tsize(v.count)
+//@   ensures 0 <= result && result <= v.count && v.count - result <= 32 && result % 32 == 0
+//@   ensures v.count > 0 ==> v.count - result >= 1
+
+//@ func vector.Index
+//@   props C06
+//@   pure
+//@   skip type-assert
+//@   requires [wf] 0 <= v.count && v.count < 4611686018427387904 && len(v.tail) == v.count - tsize(v.count) && v.root != nil
+//@   results val ok
+//@   ensures ok == (0 <= i && i < v.count)
+//@   assumes v.count == vlen(v)
+//@   assumes ok ==> val === vat(v, i)
+//@   ensures !ok ==> val == nil
+
+//@ func vector.Assoc
+//@   pure
+//@   requires [wf] 0 <= v.count && v.count < 4611686018427387904
+//@   assumes v.count == vlen(v)
+//@   assumes (result != nil) == (0 <= i && i <= vlen(v))
+//@   assumes 0 <= i && i < vlen(v) ==> vec_len(result) == vlen(v) && vec_at(result, i) === val && (forall k int :: 0 <= k && k < vlen(v) && k != i ==> vec_at(result, k) === vat(v, k))
+//@   assumes i == vlen(v) ==> vec_len(result) == vlen(v) + 1 && vec_at(result, i) === val && (forall k int :: 0 <= k && k < vlen(v) ==> vec_at(result, k) === vat(v, k))
+
+//@ func vector.SubVector
+//@   props C06
+//@   pure
+//@   results r
+//@   requires [wf] 0 <= v.count
+//@   ensures (r != nil) == (0 <= begin && begin <= end && end <= v.count)
+//@   assumes v.count == vlen(v)
+//@   assumes r != nil ==> vec_len(r) == end - begin && (forall k int :: 0 <= k && k < end - begin ==> vec_at(r, k) === vat(v, begin + k))
+
+// Representation invariant of a subVector and its view as a Vector.
+//@ spec fn swf(s *subVector) bool = s.v != nil && 0 <= s.begin && s.begin <= s.end && s.end <= vlen(s.v) && vlen(s.v) == s.v.count && s.v.count < 4611686018427387904
+//@ axiom view_of_subvector(s *subVector)
+//@   ensures vec_len(s) == s.end - s.begin
+//@   ensures forall k int :: vec_at(s, k) === vat(s.v, s.begin + k)
+
+//@ func subVector.Len
+//@   props C06
+//@   pure
+//@   requires swf(s)
+//@   ensures result == s.end - s.begin
+
+//@ func subVector.Index
+//@   props C06
+//@   pure
+//@   results val ok
+//@   requires swf(s)
+//@   requires len(s.v.tail) == s.v.count - tsize(s.v.count) && s.v.root != nil
+//@   ensures ok == (0 <= i && i < s.end - s.begin)
+//@   ensures ok ==> val === vat(s.v, s.begin + i)
+//@   ensures !ok ==> val == nil
+
+//@ func subVector.SubVector
+//@   props C06
+//@   pure
+//@   results r
+//@   requires swf(s)
+//@   ensures (r != nil) == (0 <= i && i <= j && j <= s.end - s.begin)
+//@   ensures r != nil ==> vec_len(r) == j - i && (forall k int :: 0 <= k && k < j - i ==> vec_at(r, k) === vat(s.v, s.begin + i + k))
+
+//@ func subVector.Assoc
+//@   props C06
+//@   pure
+//@   results r
+//@   requires swf(s)
+//@   ensures (r != nil) == (0 <= i && i <= s.end - s.begin)
+//@   ensures 0 <= i && i < s.end - s.begin ==> vec_len(r) == s.end - s.begin && vec_at(r, i) === val
+//@   ensures 0 <= i && i < s.end - s.begin ==> (forall k int :: 0 <= k && k < s.end - s.begin && k != i ==> vec_at(r, k) === vat(s.v, s.begin + k))
+
+//@ func subVector.Conj
+//@   props C06
+//@   pure
+//@   results r
+//@   requires swf(s)
+//@   ensures r != nil && vec_len(r) == s.end - s.begin + 1 && vec_at(r, s.end - s.begin) === val
+//@   ensures forall k int :: 0 <= k && k < s.end - s.begin ==> vec_at(r, k) === vat(s.v, s.begin + k)
+
+//@ func subVector.Pop
+//@   props C06
+//@   pure
+//@   results r
+//@   requires swf(s)
+//@   ensures (r == nil) == (s.end == s.begin)
+//@   ensures s.end - s.begin >= 2 ==> vec_len(r) == s.end - s.begin - 1 && (forall k int :: 0 <= k && k < s.end - s.begin - 1 ==> vec_at(r, k) === vat(s.v, s.begin + k))
